@@ -11,7 +11,11 @@ Cmp(name, res, want) ==
     IF res.exc # "" THEN "bad:" \o name \o ":exception:" \o res.exc
     ELSE LET got == PolyOf(res.c)
          IN IF ~PDef(want) \/ ~PDef(got) THEN "U"
-            ELSE IF got = want THEN "" ELSE "bad:" \o name
+            ELSE IF got # want THEN "bad:" \o name
+            \* degree query: the degree of the expected polynomial (0 for the zero polynomial), and the
+            \* leading coefficient reported at that degree is not a zero
+            ELSE IF res.n # (IF Len(want) = 0 THEN 0 ELSE Len(want) - 1) THEN "bad:" \o name \o ":get_degree"
+            ELSE ""
 First(rs) == IF \E i \in 1..Len(rs) : rs[i] \notin {"", "U"}
              THEN rs[CHOOSE i \in 1..Len(rs) : rs[i] \notin {"", "U"} /\ \A j \in 1..(i - 1) : rs[j] \in {"", "U"}]
              ELSE IF \E i \in 1..Len(rs) : rs[i] = "" THEN "ok" ELSE "unk"
